@@ -9,8 +9,11 @@ the harness (judged by the C01 Spec).  Nothing here looks at the engine model.
 
 Control stream (in order of occurrence):
 
-    cmd P | G | S n | BT t o | BC n o | BK k o | CLR | HP k | RST | SCH tgt kind A|R time daemon | FIN
+    cmd P | G | S n | BT t o | BC n o | BK k o | BM ent attr op thr2 o | BX n o | CLR | HP k | RST |
+        SCH tgt kind A|R time daemon | FIN
     d <ordinal> <time> <kind>                 an event was processed (on_event observer)
+    dm <ordinal> v v v …                      the watched attributes (3 per entity: level, inflight, _crashed;
+                                              `-` = None) as the same observer read them after that event
     fr <now> <processed> <paused> <running>   state after one resume() inside FIN
     st <now> <processed> <paused> <running>   state after the command
 
@@ -30,20 +33,25 @@ namespace HappyModel.C04.Spec
 open HappyModel.Proto
 
 inductive BKind
-  | time | count | type
+  | time | count | type | metric | countEq
 deriving Repr, DecidableEq
 
 structure B where
   k : BKind
   arg : Nat
   oneShot : Bool
+  attr : Nat := 0          -- metric: index into the observed attribute vector (3 * entity + attribute; out of range = no such attribute)
+  op : String := ""        -- metric: gt ge lt le eq ne
+  thr2 : Int := 0          -- metric: twice the threshold
 deriving Repr
 
-/-- a processed event as seen by an `on_event` observer -/
+/-- a processed event as seen by an `on_event` observer; `vals`: the watched attributes of every entity
+    as the observer read them right after the event (`none` = missing / None) -/
 structure D where
   ord : Nat
   time : Nat
   kind : Nat
+  vals : List (Option Int) := []
 deriving Repr
 
 /-- `get_state()` -/
@@ -59,6 +67,16 @@ def B.hit (b : B) (d : D) : Bool :=
   | .time => decide (b.arg ≤ d.time)
   | .count => decide (b.arg ≤ d.ord)
   | .type => d.kind == b.arg
+  | .countEq => d.ord == b.arg
+  | .metric =>
+    -- a value of 0 (or False) is a value like any other; only a missing attribute never satisfies
+    match (d.vals[b.attr]?).join with
+    | none => false
+    | some v =>
+      let a := 2 * v
+      match b.op with
+      | "gt" => decide (a > b.thr2) | "ge" => decide (a ≥ b.thr2) | "lt" => decide (a < b.thr2)
+      | "le" => decide (a ≤ b.thr2) | "eq" => decide (a = b.thr2) | _ => decide (a ≠ b.thr2)
 
 /-- what the user knows about the control surface from their own calls -/
 structure Mon where
@@ -118,7 +136,11 @@ def segments : List D → List String → List (List D × Seen × Bool) × List 
   | _, [] => ([], [])
   | acc, l :: rest =>
     match toks l with
-    | ["d", o, t, k] => segments (acc ++ [⟨natD o, natD t, natD k⟩]) rest
+    | ["d", o, t, k] => segments (acc ++ [⟨natD o, natD t, natD k, []⟩]) rest
+    | "dm" :: o :: vs =>
+      -- the attribute vector that goes with the last `d` line
+      let vals := vs.map (fun v => if v == "-" then none else some (intD v))
+      segments (acc.map (fun d => if d.ord == natD o then { d with vals := vals } else d)) rest
     | "fr" :: t =>
       let r := segments [] rest
       ((acc, seenOf ("fr" :: t), true) :: r.1, r.2)
@@ -138,9 +160,13 @@ def Mon.cmd (m : Mon) (c : List String) (segs : List (List D × Seen × Bool)) :
   let first : List D × Seen × Bool := segs.headD ([], m.seen, false)
   match c with
   | ["P"] => idle { m with pauseReq := true }
-  | ["BT", t, o] => idle { m with bps := m.bps ++ [⟨.time, natD t, natD o != 0⟩] }
-  | ["BC", n, o] => idle { m with bps := m.bps ++ [⟨.count, natD n, natD o != 0⟩] }
-  | ["BK", k, o] => idle { m with bps := m.bps ++ [⟨.type, natD k, natD o != 0⟩] }
+  | ["BT", t, o] => idle { m with bps := m.bps ++ [{ k := .time, arg := natD t, oneShot := natD o != 0 }] }
+  | ["BC", n, o] => idle { m with bps := m.bps ++ [{ k := .count, arg := natD n, oneShot := natD o != 0 }] }
+  | ["BK", k, o] => idle { m with bps := m.bps ++ [{ k := .type, arg := natD k, oneShot := natD o != 0 }] }
+  | ["BX", n, o] => idle { m with bps := m.bps ++ [{ k := .countEq, arg := natD n, oneShot := natD o != 0 }] }
+  | ["BM", x, a, op, thr2, o] =>
+    idle { m with bps := m.bps ++ [{ k := .metric, arg := natD x, oneShot := natD o != 0,
+                                     attr := if natD a < 3 then 3 * natD x + natD a else 1000000, op := op, thr2 := intD thr2 }] }
   | ["CLR"] => idle { m with bps := [] }
   | ["HP", k] => idle { m with hooks := natD k :: m.hooks }
   | ["RST"] =>
@@ -213,7 +239,7 @@ def judgeTrace (trace : List String) (finalComplete : Bool) : Option String :=
         !s.startsWith "engine/autoterm/" &&
         ((i + 1 == n && finalComplete) ||
           !(s == "engine/live-event-not-delivered" || s == "engine/daemon-event-skipped"))
-      let carry' := carry ++ ep.filter (fun l => (toks l).head? == some "C")
+      let carry' := carry ++ ep.filter (fun l => (toks l).head? == some "C" || (toks l).head? == some "U")
       match HappyModel.C01.Spec.judge (HappyModel.C01.Spec.parse (carry ++ ep)) with
       | some s => if keep s then some s else go (i + 1) carry' rest
       | none => go (i + 1) carry' rest
